@@ -163,7 +163,8 @@ FORSTMT = dict(rule="R5", re=r"for stmt in (\w+(?:\.\w+)*) (/\*@L0@\*/)\{(/\*@LB
                why="consuming iteration over Vec<Statement> -> index loop in the same order")
 
 PATCHLOOP = dict(invariant=["verif_k <= break_pos@.len()", "gen_s(&verif_s0, self)", "cwf(self)",
-                            "forall|j: int| verif_k <= j < break_pos@.len() ==> is_start(self, #[trigger] break_pos@[j] as int) && op_at(code(self), break_pos@[j] as int) == Opcode::Jump && break_pos@[j] >= code(&verif_s0).len()"],
+                            "forall|j: int| verif_k <= j < break_pos@.len() ==> is_start(self, #[trigger] break_pos@[j] as int) && op_at(code(self), break_pos@[j] as int) == Opcode::Jump && break_pos@[j] >= code(&verif_s0).len() && break_pos@[j] + 3 <= code(self).len() - 3",
+                            "loop_tail(&verif_s0, self)", "is_start(self, code(self).len() - 3)", "verif_p >= 0 ==> while_jumps(&verif_s0, self, verif_p) && is_start(self, verif_p)"],
                  decreases="break_pos@.len() - verif_k", body_prologue=BCAST)
 
 COMPILE = [
@@ -185,8 +186,12 @@ COMPILE = [
       loops={0: dict(invariant=["verif_k <= verif_v@.len()", "gen_s(old(self), self)"], decreases="verif_v@.len() - verif_k", body_prologue=BCAST)}),
     m("compile_program", ret="r", requires=PRE, ensures=GEN_S, attrs=NODEC),
     m("compile_let_stmt", ret="r", requires=PRE, ensures=GEN, attrs=NODEC),
-    m("compile_statement", ret="r", requires=PRE, ensures=GEN_S, prologue=BCAST + REFL, attrs=NODEC + ["#[verifier::rlimit(400)]"],
+    m("compile_statement", ret="r", requires=PRE, props=["C06", "C01", "C08"],
+      ensures=GEN_S + ["r is Ok ==> (verif_param is Loop ==> loop_tail(old(self), final(self)))", "r is Ok ==> (verif_param is While ==> while_loop_shape(old(self), final(self)))"],
+      prologue=BCAST + REFL, attrs=NODEC + ["#[verifier::rlimit(400)]"],
       rewrites=[
+          dict(rule="R0", re=r"\(&mut self, stmt: Statement\)", to="(&mut self, verif_param: Statement)", expect=1, strict=True, why="parameter renamed (the match arms shadow it; loop invariants need to name it)"),
+          dict(rule="R0", re=r"match stmt \{", to="match verif_param {", expect=1, strict=True, why="parameter renamed"),
           dict(rule="R3", re=r"self\.scopes\[self\.scope_index\]\.loop_stack\.push\(loop_label\);", expect=2, strict=True,
                to="let ghost verif_s0 = *self; let verif_i = self.scope_index; let mut verif_sc = scope_take(&mut self.scopes, verif_i); verif_sc.loop_stack.push(loop_label); scope_put(&mut self.scopes, verif_i, verif_sc); let ghost verif_s1 = *self; proof { assert(sc(&verif_s1).loop_stack@.subrange(0, sc(&verif_s0).loop_stack@.len() as int) =~= sc(&verif_s0).loop_stack@); lemma_loop_pushed(&verif_s0, &verif_s1); }",
                why="method call on a field of a Vec element -> take/modify/put back; ghost snapshots and proof hint"),
@@ -194,7 +199,14 @@ COMPILE = [
                to="let ghost verif_s3 = *self; let verif_popped = { let verif_i = self.scope_index; let mut verif_sc = scope_take(&mut self.scopes, verif_i); let verif_r = verif_sc.loop_stack.pop(); scope_put(&mut self.scopes, verif_i, verif_sc); verif_r }; proof { lemma_loop_popped(&verif_s0, &verif_s1, &verif_s3, self); } if let Some(loop_curr) = verif_popped {",
                why="method call on a field of a Vec element -> take/modify/put back; ghost snapshot and proof hint"),
           dict(rule="R5", re=r"for pos in break_pos\.iter\(\) (/\*@L\d@\*/)\{(/\*@LB\d@\*/)", expect=2, strict=True,
-               to=r"let mut verif_k: usize = 0; while verif_k < break_pos.len() \1{ let pos = &break_pos[verif_k]; verif_k += 1; \2", why="iteration over a slice -> index loop in the same order"),
+               to=r"let mut verif_k: usize = 0; while verif_k < break_pos.len() \1{ let pos = &break_pos[verif_k]; verif_k += 1; let ghost verif_pre = *self; \2", why="iteration over a slice -> index loop in the same order; ghost snapshot"),
+          dict(rule="R9", re=r"self\.patch_jump\(\*pos\);", expect=2, strict=True, to="self.patch_jump(*pos); proof { lemma_jumps_kept(&verif_s0, &verif_pre, self, *pos as int, verif_p); }", why="proof hint: patching a break placeholder keeps the loop's own jumps"),
+          dict(rule="R9", re=r"self\.emit\(Opcode::Jump, &\[loop_begin\], stmt\.token\.line\);", expect=2, strict=True,
+               to="let ghost verif_sb = *self; proof { lemma_breaks_before(&verif_sb); } self.emit(Opcode::Jump, &[loop_begin], stmt.token.line); let ghost verif_p: int = -1; proof { lemma_loop_tail(&verif_s0, &verif_sb, self, loop_begin); }",
+               why="ghost snapshot and proof hint: the loop-back jump"),
+          dict(rule="R9", re=r"self\.patch_jump\(condition_pos\);", expect=1, strict=True,
+               to="let ghost verif_s5 = *self; self.patch_jump(condition_pos); let ghost verif_p: int = condition_pos as int; proof { lemma_while_jumps(&verif_s0, &verif_s5, self, verif_p); }",
+               why="ghost snapshot and proof hint: the exit jump of while"),
           dict(rule="R5m", expect=1, strict=True,
                re=r"let loop_stack = &mut self\.scopes\[self\.scope_index\]\.loop_stack;\s*for loop_label in loop_stack\.iter_mut\(\)\.rev\(\) (/\*@L2@\*/)\{(/\*@LB2@\*/)\s*if let Some\(loop_label_name\) = &loop_label\.label \{\s*if loop_label_name == &label\.literal \{\s*loop_label\.break_positions\.push\(pos\);\s*return Ok\(\(\)\);\s*\}\s*\}\s*(/\*@LE2@\*/)\}(/\*@LA2@\*/)",
                to=r"let ghost verif_sb = *self; let verif_i = self.scope_index; let mut verif_sc = scope_take(&mut self.scopes, verif_i); let mut verif_k: usize = verif_sc.loop_stack.len(); while verif_k > 0 \1{\2 verif_k -= 1; if loopctx_label_is(&verif_sc.loop_stack, verif_k, &label.literal) { loopctx_push_break(&mut verif_sc.loop_stack, verif_k, pos); scope_put(&mut self.scopes, verif_i, verif_sc); proof { lemma_break_recorded(&verif_sb, self, verif_k as int, pos); } return Ok(()); } \3}\4 scope_put(&mut self.scopes, verif_i, verif_sc);",
@@ -208,9 +220,9 @@ COMPILE = [
              2: dict(invariant=["verif_k <= verif_sc.loop_stack@.len()", "verif_sc == sc(&verif_sb)", "verif_i == verif_sb.scope_index", "self.scope_index == verif_sb.scope_index", "self.scopes@.len() == verif_sb.scopes@.len()",
                                 "forall|j: int| 0 <= j < verif_sb.scopes@.len() && j != verif_i ==> self.scopes@[j] == verif_sb.scopes@[j]",
                                 "self.constants == verif_sb.constants", "self.symtab == verif_sb.symtab", "self.filters == verif_sb.filters", "self.filter_end == verif_sb.filter_end", "self.encoding_error == verif_sb.encoding_error",
-                                "cwf(&verif_sb)", "code(&verif_sb).len() > 0", "sc(&verif_sb).last_ins.position == pos", "sc(&verif_sb).last_ins.opcode == Opcode::Jump", "fresh(&sc(&verif_sb))", "gen_s(old(self), &verif_sb)", "pos >= code(old(self)).len()"],
+                                "cwf(&verif_sb)", "code(&verif_sb).len() > 0", "sc(&verif_sb).last_ins.position == pos", "sc(&verif_sb).last_ins.opcode == Opcode::Jump", "fresh(&sc(&verif_sb))", "gen_s(old(self), &verif_sb)", "pos >= code(old(self)).len()", "verif_param is Break"],
                      decreases="verif_k", body_prologue=BCAST),
-             3: dict(invariant=["gen_s(old(self), self)", "*self == *old(self)"], body_prologue=BCAST)}),
+             3: dict(invariant=["gen_s(old(self), self)", "*self == *old(self)", "verif_param is Continue"], body_prologue=BCAST)}),
     m("compile_expression", ret="r", requires=PRE, props=["C06", "C13", "C01", "C08"],
       ensures=GEN + ["r is Ok ==> emitted_by(expr, seg(final(self), code(old(self)).len() as int, code(final(self)).len() as int))",
                      # C06: the logical operators are compiled by the short-circuit generators, on their own operands, in source order
